@@ -130,10 +130,12 @@ def gen_run(rng, cfg):
         kind = _pick_weighted(rng, list(mix.items()))
         op = {"op": kind}
         items = list(rng.choice(pool))
-        if ops and rng.random() < 0.12:
+        same_again = False
+        if ops and rng.random() < 0.2:
             prev = rng.choice(ops)
-            items = list(prev["items"])  # the same text as an earlier call
-        if (dirty and rng.random() < 0.6) or rng.random() < 0.1:
+            items = list(prev["items"])  # the same text as an earlier call (damage included)
+            same_again = True
+        if not same_again and ((dirty and rng.random() < 0.6) or rng.random() < 0.1):
             items = list(rng.choice(CLASH_PROBES))
         fault = None
         dirty_next = False
@@ -146,6 +148,13 @@ def gen_run(rng, cfg):
                     items, desc = W.mutate_items(rng, items, fk)
                     op["mut"] = desc
                     dirty_next = True
+                    if rng.random() < 0.25:
+                        # damaged input AND an asynchronous abort in the same call
+                        ak = rng.choice(["seam-abort", "line-abort"])
+                        ntok = max(2, sum(len(W.cheap_tokens(t)) for t in items))
+                        fault = make_abort_fault(rng, ak, ntok, "\n".join(items))
+                        if ak == "seam-abort" or "after" in fault:
+                            op["obj"] = "P1"
                 elif fk == "snippet-fail":
                     items = list(rng.choice(W.FAILING_SNIPPETS))
                     op["mut"] = "failing snippet"
